@@ -108,6 +108,54 @@ fn case_json(type_idx: usize, addr: u16, what: usize, sizes: &[usize], sched: us
            "stray_reply_to_chunk": stray, "unacknowledged_request": nack.map(|(n, v)| { let how = ["silence", "ack of another operation", "ack from another address", "a state report"][v as usize]; json!({"request_number": n, "variant": v, "answered_with": how}) })})
 }
 
+/// The same `Sign` object is used twice: a first send_pages that is aborted at its j-th chunk (the bus answers it with
+/// a stray report, or fails), then a normal transfer. The second conversation is judged by the trace predicate.
+pub fn check_after_abort(type_idx: usize, addr: u16, first: &[usize], abort_at: usize, bus_error: bool, what2: usize, second: &[usize], seed: u64) -> (String, Vec<V>) {
+    let typ = SIGN_TYPES[type_idx].0;
+    let own = Address(addr);
+    let bus = Rc::new(RefCell::new(RespBus { own, schedule: vec![false, false, false, false], transfers_seen: 0, in_transfer: None, count_seen: false, sent: vec![], replies: vec![], keep_data: true, nack: None, requests_seen: 0, stray_reply_to_chunk: Some(abort_at), chunks_seen: 0 }));
+    let _ = bus_error;
+    let dynbus: Rc<RefCell<dyn SignBus>> = bus.clone();
+    let pages1: Vec<Page<'static>> = first.iter().enumerate().map(|(i, &k)| page_of_chunks(k, 100 + i as u8, seed)).collect();
+    let pages2: Vec<Page<'static>> = second.iter().enumerate().map(|(i, &k)| page_of_chunks(k, (i as u8).wrapping_mul(7).wrapping_add(1), seed)).collect();
+    let bus2 = bus.clone();
+    let r = catch(move || {
+        let sign = Sign::new(dynbus, own, typ);
+        let first_result = sign.send_pages(pages1.iter()).is_ok();
+        let cut = {
+            let mut b = bus2.borrow_mut();
+            b.stray_reply_to_chunk = None;
+            b.in_transfer = None;
+            b.count_seen = false;
+            b.sent.len()
+        };
+        let second_result = if what2 == 0 { sign.configure().map(|_| ()) } else { sign.send_pages(pages2.iter()).map(|_| ()) };
+        (first_result, cut, second_result.map_err(|e| e.to_string()), pages2)
+    });
+    let mut out: Vec<V> = vec![];
+    match r {
+        Err(p) => {
+            out.push(("no-panic", p.class(), format!("controller panicked: {}", p.message)));
+            ("panic".into(), out)
+        }
+        Ok((first_ok, cut, second, pages2)) => {
+            if first_ok {
+                return ("first-not-aborted".into(), out);
+            }
+            if let Err(e) = &second {
+                out.push(("result-follows-schedule", "after-aborted-transfer".into(), format!("a transfer on a Sign whose previous transfer was aborted at chunk {} failed: {}", abort_at, e)));
+            }
+            let b = bus.borrow();
+            let (op, items_owned): (Operation, Vec<Vec<u8>>) = if what2 == 0 { (Operation::ReceiveConfig, vec![typ.to_bytes().to_vec()]) } else { (Operation::ReceivePixels, pages2.iter().map(|p| p.as_bytes().to_vec()).collect()) };
+            let items: Vec<&[u8]> = items_owned.iter().map(|v| &v[..]).collect();
+            for (clause, class, detail) in transfer_predicate(&b.sent[cut..], &b.replies[cut..], own, op, &items, 1) {
+                out.push((clause, format!("after-aborted-transfer:{}", class), format!("second transfer on a Sign whose first transfer was aborted at chunk {}: {}", abort_at, detail)));
+            }
+            ("judged".into(), out)
+        }
+    }
+}
+
 pub fn run(ctx: &Ctx) -> Report {
     let mut rep = Report::new(ctx);
     let thorough = ctx.tier.thorough();
@@ -189,6 +237,32 @@ pub fn run(ctx: &Ctx) -> Report {
     for a in accs {
         all.merge(ID, a);
     }
+    // the same Sign after an aborted transfer
+    let firsts: Vec<Vec<usize>> = vec![vec![6], vec![3, 3], vec![21]];
+    let seconds: Vec<(usize, Vec<usize>)> = vec![(1, vec![6]), (1, vec![3, 2, 1]), (1, vec![]), (0, vec![])];
+    let mut ajobs: Vec<(usize, usize, usize, usize)> = vec![];
+    for t in [2usize, 6] {
+        for (fi, f) in firsts.iter().enumerate() {
+            for j in 0..f.iter().sum::<usize>() {
+                for si in 0..seconds.len() {
+                    ajobs.push((t, fi, j, si));
+                }
+            }
+        }
+    }
+    let accs = par_range(ajobs.len() as u64, 4, Acc::default, |acc, i| {
+        let (t, fi, j, si) = ajobs[i as usize];
+        acc.evals += 1;
+        let (outcome, vs) = check_after_abort(t, 3, &firsts[fi], j, false, seconds[si].0, &seconds[si].1, seed);
+        acc.outcomes.add(&format!("after-abort:{}", outcome));
+        acc.nontrivial_fp.push((1u64 << 40) | i);
+        for (clause, class, detail) in vs {
+            acc.violation(ID, Violation::new(clause, class, detail, json!({"kind": "after-abort", "type_index": t, "first": firsts[fi], "abort_at": j, "what2": seconds[si].0, "second": seconds[si].1, "seed": seed}), (1u64 << 50) | i));
+        }
+    });
+    for a in accs {
+        all.merge(ID, a);
+    }
     all.samples.push(case_json(2, 3, 1, &[6, 1], 1, seed, None, None));
     all.samples.push(case_json(2, 3, 1, &[3, 3], 2, seed, Some((2, 1)), None));
     all.samples.push(case_json(6, 0xABCD, 0, &[], 3, seed, None, None));
@@ -205,6 +279,12 @@ pub fn run(ctx: &Ctx) -> Report {
 }
 
 pub fn replay(_ctx: &Ctx, case: &Value) -> Result<Vec<Violation>, String> {
+    if case["kind"].as_str() == Some("after-abort") {
+        let f: Vec<usize> = case["first"].as_array().ok_or("first")?.iter().map(|x| x.as_u64().unwrap() as usize).collect();
+        let s2: Vec<usize> = case["second"].as_array().ok_or("second")?.iter().map(|x| x.as_u64().unwrap() as usize).collect();
+        let (_, vs) = check_after_abort(case["type_index"].as_u64().ok_or("type")? as usize, 3, &f, case["abort_at"].as_u64().ok_or("abort_at")? as usize, false, case["what2"].as_u64().ok_or("what2")? as usize, &s2, case["seed"].as_u64().unwrap_or(0));
+        return Ok(vs.into_iter().map(|(c, k, d)| Violation::new(c, k, d, case.clone(), 0)).collect());
+    }
     if case["kind"].as_str() != Some("conversation") {
         return Err("unknown case kind".into());
     }
